@@ -88,6 +88,7 @@ def _canon_tree(tree: ast.AST) -> None:
       ``x = E`` directly followed by ``return x`` (x used nowhere else in the function)  ->  ``return E``
       ``x = <bool expr>`` directly followed by ``if x:`` / ``if not x:`` (x used nowhere else)  ->  ``if <bool expr>:``
       ``if not c: B else: A``  ->  ``if c: A else: B``   (elif chains are left alone)
+      ``if x is not None: A else: B`` -> ``if x is None: B else: A``  (likewise ``!=``, ``not in``)
       ``a < b`` -> ``b > a`` and ``a <= b`` -> ``b >= a``
 
     (the inverses of "name the result before returning it", "name the condition before testing
@@ -98,6 +99,17 @@ def _canon_tree(tree: ast.AST) -> None:
         if isinstance(n, ast.Compare) and len(n.ops) == 1 and isinstance(n.ops[0], (ast.Lt, ast.LtE)):
             n.left, n.comparators[0] = n.comparators[0], n.left
             n.ops[0] = ast.Gt() if isinstance(n.ops[0], ast.Lt) else ast.GtE()
+    # a pure attribute chain rooted at a parameter (never stored to in the function) that is read
+    # once into a local at the top of the function is written in place: `limit = self.env.x`,
+    # `source = parent_token.source`, `mode = self.mode`, `resolve = context.resolve`
+    from .normalize import propagate_aliases
+
+    for fn in ast.walk(tree):
+        if isinstance(fn, (ast.FunctionDef, ast.AsyncFunctionDef)):
+            try:
+                propagate_aliases(fn)
+            except Exception:  # noqa: BLE001
+                pass
     for fn in ast.walk(tree):
         if not isinstance(fn, (ast.FunctionDef, ast.AsyncFunctionDef)):
             continue
@@ -144,6 +156,11 @@ def _canon_tree(tree: ast.AST) -> None:
             for st in block:
                 if isinstance(st, ast.If) and st.orelse and not (len(st.orelse) == 1 and isinstance(st.orelse[0], ast.If)) and isinstance(st.test, ast.UnaryOp) and isinstance(st.test.op, ast.Not):
                     st.test = st.test.operand
+                    st.body, st.orelse = st.orelse, st.body
+                # `if x is not None: A else: B`  ->  `if x is None: B else: A`  (likewise != / not in)
+                if isinstance(st, ast.If) and st.orelse and not (len(st.orelse) == 1 and isinstance(st.orelse[0], ast.If)) and isinstance(st.test, ast.Compare) and len(st.test.ops) == 1 and isinstance(st.test.ops[0], (ast.IsNot, ast.NotEq, ast.NotIn)):
+                    pos = {ast.IsNot: ast.Is, ast.NotEq: ast.Eq, ast.NotIn: ast.In}[type(st.test.ops[0])]
+                    st.test.ops[0] = pos()
                     st.body, st.orelse = st.orelse, st.body
 
         for n in ast.walk(fn):
